@@ -6,8 +6,8 @@ CONSTANTS
   MaxIter = 12
   Loop = "distance"
   Variant = "lib"
-  SwapVariant = "correct"
-  OrientStart = TRUE
+  SwapVariant = "aliased"
+  OrientStart = FALSE
   MaxEpaIter = 12
   RequireProperStart = TRUE
   ClosestTies = "first"
